@@ -178,7 +178,8 @@ def generate(rng, tier, shard, nshards):
             yield {'lane': 'circle-mask', 'r': gen.logu(rng, 0.05, 30), 'cx': rng.uniform(-50, 50), 'cy': rng.uniform(-50, 50), 'rs': rs}
         elif r < 0.30:
             a = gen.logu(rng, 0.05, 30)
-            yield {'lane': 'ellipse-mask', 'a': a, 'b': a / gen.logu(rng, 1, 30), 'theta': rng.uniform(-10, 10),
+            ratio = gen.logu(rng, 1, 30) if rng.random() < 0.8 else 1.0 + rng.choice([-1, 1]) * 10.0 ** rng.uniform(-7, -3)     # nearly circular too
+            yield {'lane': 'ellipse-mask', 'a': a, 'b': a / ratio, 'theta': rng.uniform(-10, 10),
                    'cx': rng.uniform(-50, 50), 'cy': rng.uniform(-50, 50), 'unit': rng.choice(['rad', 'deg']), 'rs': rs}
         elif r < 0.45:
             yield {'lane': 'circle-window', 'r': gen.logu(rng, 1e-3, 1e3), 'phi': rng.uniform(0, 2 * math.pi), 'fx': rng.random(), 'fy': rng.random(),
